@@ -728,9 +728,10 @@ func runC06(c *Ctx) {
 		c.R.RequireMin("R06.5", "cleanupToken call sites", n, 1)
 	}
 
-	// R06.6 / R06.7
+	// R06.6 / R06.7 / R06.8
 	checkNoticePatternsUnconditional(c, p)
 	checkSpellingLookupOnCleanText(c, p)
+	checkMarkerTableDecides(c, p)
 
 	// R06.3 hyphenation flags survive refills
 	checkFlagsSurviveRefill(c, p)
@@ -1094,6 +1095,65 @@ func checkNoticePatternsUnconditional(c *Ctx, p *core.Prog) {
 		}
 	}
 	c.R.RequireMin("R06.6", "token literals behind the notice patterns", n, 1)
+}
+
+// checkMarkerTableDecides: R06.8. The property lists "1.", "a)", "iv.", "3.1." as markers: the closing character is
+// any of those the marker test dispatches on, for table markers as for numbers. So once the word (without its closing
+// character) is found in the list-marker table, the test answers yes - no further condition on the closing character.
+func checkMarkerTableDecides(c *Ctx, p *core.Prog) {
+	g := p.Global(v2pkg, "listMarker")
+	if !c.R.Anchor(g != nil, "v2.listMarker") {
+		return
+	}
+	n := 0
+	for _, fn := range v2Funcs(p) {
+		for _, b := range fn.Blocks {
+			for _, in := range b.Instrs {
+				lk, ok := in.(*ssa.Lookup)
+				if !ok {
+					continue
+				}
+				ld, ok := lk.X.(*ssa.UnOp)
+				if !ok || ld.X != ssa.Value(g) {
+					continue
+				}
+				n++
+				// the branch on the lookup result
+				var res ssa.Value = lk
+				if lk.CommaOk {
+					for _, r := range *lk.Referrers() {
+						if ex, isEx := r.(*ssa.Extract); isEx && ex.Index == 0 {
+							res = ex
+						}
+					}
+				}
+				okAll, why := false, "the result of the table lookup does not decide a branch"
+				for _, r := range *res.Referrers() {
+					ifi, isIf := r.(*ssa.If)
+					if !isIf {
+						continue
+					}
+					// follow unconditional jumps from the true successor
+					t := ifi.Block().Succs[0]
+					for len(t.Instrs) == 1 {
+						if _, isJ := t.Instrs[0].(*ssa.Jump); !isJ {
+							break
+						}
+						t = t.Succs[0]
+					}
+					if ret, isRet := t.Instrs[len(t.Instrs)-1].(*ssa.Return); isRet && len(ret.Results) == 1 {
+						if cst, isC := ret.Results[0].(*ssa.Const); isC && cst.Value != nil && cst.Value.String() == "true" {
+							okAll, why = true, "a word found in the marker table is a marker, whatever its closing character"
+							continue
+						}
+					}
+					okAll, why = false, "after the word was found in the marker table another condition decides (on the closing character): markers of the form \"a)\" / \"iv)\", which the property lists, are kept as words, so a text numbered that way no longer matches"
+				}
+				c.R.Check(okAll, "R06.8", core.ShortFn(fn)+": a word found in the list-marker table is treated as a marker", p.Pos(lk.Pos()), why, why)
+			}
+		}
+	}
+	c.R.RequireMin("R06.8", "lookups in the list-marker table", n, 1)
 }
 
 // consultsOnEveryPath: in the verdict helper f, a load of the table dominates every return (no early verdict before the
